@@ -2679,9 +2679,23 @@ func (c StreamContext) Data(converterName string) ([]index.Data, error) {
 				Type:      "converterCompleted",
 				Converter: converter.Statistics(),
 			})
-			// tags with data filters could match on the converted data now
 			streams := bitmask.LongBitmask{}
 			streams.Set(uint(streamID))
+			// the view might be older than an import that changed the stream,
+			// the output of the old data must not stay in the cache then
+			for i := len(mgr.indexes) - 1; i >= 0; i-- {
+				newest, err := mgr.indexes[i].StreamByID(streamID)
+				if err != nil || newest == nil {
+					continue
+				}
+				if newest.Reader() != c.Stream().Reader() && !(newest.FirstPacket().Equal(c.Stream().FirstPacket()) && newest.LastPacket().Equal(c.Stream().LastPacket()) && newest.ClientBytes == c.Stream().ClientBytes && newest.ServerBytes == c.Stream().ServerBytes) {
+					invalidated := converter.InvalidateChangedStreams(&streams)
+					mgr.streamsToConvert[converterName].Or(invalidated)
+					mgr.startConverterJobIfNeeded()
+				}
+				break
+			}
+			// tags with data filters could match on the converted data now
 			mgr.invalidateDataTags(streams)
 			mgr.startTaggingJobIfNeeded()
 		}
